@@ -32,12 +32,7 @@ class ModularMixin:
             self.old_heap = self.heap.snapshot()
             self.old_locals = dict(frame.locals)
             self.old_ghost = {'g_enc': self.g_enc, 'g_dec': self.g_dec, 'g_nframes': self.g_nframes, 'g_ngoaway': self.g_ngoaway, 'g_nencode': self.g_nencode}
-            for target in (C.modifies or []):
-                if callable(target):
-                    target(self, frame.locals)      # functional summary (a restatement of proved ensures clauses)
-                else:
-                    self.havoc(target, frame)
-            # outcome
+            # outcome conditions (`when`) speak about the callee's PRE-state: evaluated before the frame is havocked
             conds, alts = [], []
             normal_cond = True
             for rc in ([] if C.lazy else C.raises):
@@ -46,6 +41,11 @@ class ModularMixin:
                 alts.append(rc)
                 if rc.iff:
                     normal_cond = zand(normal_cond, znot(w))
+            for target in (C.modifies or []):
+                if callable(target):
+                    target(self, frame.locals)      # functional summary (a restatement of proved ensures clauses)
+                else:
+                    self.havoc(target, frame)
             # the outcomes of a contract are alternatives, not an if/elif chain: every enabled one is explored
             i = self.choose([normal_cond] + conds, 'modular:%s' % fi.name, names=['return'] + [rc.label for rc in alts], exclusive=False)
             if i == 0:
